@@ -106,6 +106,24 @@ theorem domClosed_inGame (root : Pos) : DomClosed basis (fun q => TakD q ∧ InG
   have hap' : p.apply basis m' = .ok q := by rw [apply_of_equal basis p m' m he]; exact hap
   exact .step hd.2 ⟨m', hm', C06.takGame_apply_some.mpr hap'⟩
 
+/-- every position reached from a position of the game by applied non-pass moves (generated or not) is a position of
+the game -/
+theorem inGame_applyAll {root : Pos} (hroot : GoodPos basis root) : ∀ (ms : List Move) (p q : Pos),
+    InGame basis root p → (∀ m ∈ ms, m.type ≠ Facts.mtPass) → p.applyAll basis ms = .ok q → InGame basis root q := by
+  intro ms
+  induction ms with
+  | nil => intro p q hp _ h; simp only [Pos.applyAll] at h; cases h; exact hp
+  | cons m ms ih =>
+    intro p q hp hnp h
+    simp only [Pos.applyAll] at h
+    cases hap : p.apply basis m with
+    | error e => rw [hap] at h; cases h
+    | ok p1 =>
+      rw [hap] at h
+      have hg := goodPos_inGame basis hroot hp
+      have h1 := domClosed_inGame basis root p p1 m hg.1.1 ⟨hg.2, hp⟩ (hnp m (by simp)) hap
+      exact ih p1 q h1.2 (fun x hx => hnp x (by simp [hx])) h
+
 /-- **no collision among the positions of one game ⇒ `HashOK` there**: if positions of the game from `root` with
 equal hashes are `Equal` (same board, same side to move), they have the same verdict class at every depth -/
 theorem hashOKOn_of_noCollision (hev : EvVerdictCongr ev) (root : Pos) (hroot : GoodPos basis root)
